@@ -43,6 +43,7 @@ func propC15(w *World, r *Report) {
 	RunLigPrefix(w, r)
 	RunLigCondition(w, r)
 	RunKernPairFirst(w, r)
+	RunRequiredInit(w, r)
 }
 
 func checkFindLookups(w *World, r *Report) {
@@ -1127,4 +1128,72 @@ func isEmptinessTest(v ssa.Value) bool {
 		}
 	}
 	return false
+}
+
+// RunRequiredInit: gtab.Features.Required names the required feature of a
+// language system by index; "none" is 0xFFFF, so the zero value of the field
+// makes feature 0 required. Every Features value the library builds says what
+// it means: the composite literal sets Required.
+func RunRequiredInit(w *World, r *Report) {
+	r.Rule("requiredinit: every composite literal of gtab.Features in the library sets the field Required explicitly (its zero value makes feature 0 the required feature, which the caller's feature switches cannot turn off)")
+	n := 0
+	for _, p := range w.Pkgs {
+		if !isLibPkg(p.PkgPath) {
+			continue
+		}
+		for _, f := range p.Syntax {
+			if strings.HasSuffix(w.Fset.Position(f.Pos()).Filename, "_test.go") {
+				continue
+			}
+			var stack []ast.Node
+			ast.Inspect(f, func(nd ast.Node) bool {
+				if nd == nil {
+					stack = stack[:len(stack)-1]
+					return true
+				}
+				stack = append(stack, nd)
+				cl, ok := nd.(*ast.CompositeLit)
+				if !ok {
+					return true
+				}
+				t := p.TypesInfo.TypeOf(cl)
+				if t == nil {
+					return true
+				}
+				if pt, ok := t.(*types.Pointer); ok {
+					t = pt.Elem()
+				}
+				nt, ok := t.(*types.Named)
+				if !ok || nt.Obj().Name() != "Features" || nt.Obj().Pkg() == nil || !strings.HasSuffix(nt.Obj().Pkg().Path(), "/opentype/gtab") {
+					return true
+				}
+				n++
+				fnn := "package " + p.Name
+				for i := len(stack) - 1; i >= 0; i-- {
+					if fd, ok := stack[i].(*ast.FuncDecl); ok {
+						fnn = p.Name + "." + fd.Name.Name
+						break
+					}
+				}
+				key := r.MkKey("requiredinit", fnn, "gtab.Features literal")
+				has := false
+				for _, el := range cl.Elts {
+					if kv, ok := el.(*ast.KeyValueExpr); ok {
+						if id, ok := kv.Key.(*ast.Ident); ok && id.Name == "Required" {
+							has = true
+						}
+					} else {
+						has = true // positional: all fields given
+					}
+				}
+				if has {
+					r.OK("requiredinit", key, w.Pos(cl.Pos()), "Required is set")
+				} else {
+					r.Fail("requiredinit", key, w.Pos(cl.Pos()), "this gtab.Features value leaves Required at its zero value: feature 0 of the table becomes the required feature and is applied whatever the caller's feature switches say", nil)
+				}
+				return true
+			})
+		}
+	}
+	r.Floor("requiredinit", 2)
 }
